@@ -71,7 +71,7 @@ def shrink(case, still_fails, budget=150):
 def run(prop, tier, seed, replay=None):
     t0 = time.time()
     pid = prop.pid
-    outdir = os.path.join(vlib.OUT, pid)
+    outdir = os.path.join(vlib.OUT, getattr(prop, "evidence_name", pid))
     os.makedirs(outdir, exist_ok=True)
     lines = []          # VIOLATION / KNOWN-FINDING lines
     n_viol = 0
@@ -127,7 +127,7 @@ def run(prop, tier, seed, replay=None):
         notes.append("harness build failed:\n" + out_h[-3000:])
 
     # (d) cases: corpus first, then generated
-    corpus = load_corpus(pid)
+    corpus = load_corpus(getattr(prop, "corpus_name", pid))
     if replay:
         cases = [json.load(open(replay))["case"]]
         corpus = []
@@ -309,7 +309,8 @@ def run(prop, tier, seed, replay=None):
         "coqchk": chk,
         "notes": notes,
     }
-    vlib.write_evidence(pid, tier, seed, coverage, prop.assumptions, time.time() - t0, n_viol)
+    vlib.write_evidence(getattr(prop, "evidence_name", pid), tier, seed, coverage, prop.assumptions,
+                        time.time() - t0, n_viol)
     for n in notes:
         log("NOTE: " + n)
     for l in lines:
@@ -325,3 +326,49 @@ def _w(outdir, case):
     p = os.path.join(outdir, "one.txt")
     vlib.write_cases(p, [case])
     return p
+
+
+def run_multi(pid, parts, tier, seed, replay=None):
+    """a property decided by several engines (each a DiffProp with the same `pid`
+    and its own `evidence_name` / `corpus_name`): run all, merge the evidence into
+    evidence/<pid>.json, exit 1 if any part reports a violation"""
+    rc = 0
+    merged = None
+    t0 = time.time()
+    for part in parts:
+        if replay:
+            # a replay file belongs to the part whose out/ directory holds it
+            if os.sep + part.evidence_name + os.sep not in os.path.abspath(replay):
+                continue
+        r = run(part, tier, seed, replay)
+        rc = max(rc, r)
+        epath = os.path.join(vlib.ROOT, "evidence", part.evidence_name + ".json")
+        ev = json.load(open(epath))
+        os.remove(epath)
+        cov = ev["coverage"]
+        if merged is None:
+            merged = ev
+            merged["coverage"]["parts"] = {part.evidence_name: {k: cov.get(k) for k in
+                                           ("evaluations", "distinct_nontrivial", "disagreements",
+                                            "oracle_violations", "theorems", "rule")}}
+            continue
+        m = merged["coverage"]
+        for k in ("obligations", "discharged", "evaluations", "corpus_cases", "distinct_nontrivial",
+                  "traces_validated_against_impl", "disagreements", "oracle_violations", "harness_aborts"):
+            m[k] = m.get(k, 0) + cov.get(k, 0)
+        for k in ("trusted_base", "theorems", "samples", "known_findings_seen", "notes"):
+            m[k] = m.get(k, []) + [x for x in cov.get(k, []) if x not in m.get(k, [])]
+        m["rule"] = m.get("rule", "") + " || " + cov.get("rule", "")
+        m["checker_cmd"] = m.get("checker_cmd", "") + " ; " + cov.get("checker_cmd", "")
+        m["input_distribution"] = dict(m.get("input_distribution", {}), **cov.get("input_distribution", {}))
+        m["parts"][part.evidence_name] = {k: cov.get(k) for k in
+                                          ("evaluations", "distinct_nontrivial", "disagreements",
+                                           "oracle_violations", "theorems", "rule")}
+        merged["assumptions"] = merged.get("assumptions", []) + [a for a in ev.get("assumptions", [])
+                                                                 if a not in merged.get("assumptions", [])]
+        merged["violations"] = merged.get("violations", 0) + ev.get("violations", 0)
+    if merged is not None:
+        merged["property_id"] = pid
+        merged["wall_s"] = round(time.time() - t0, 2)
+        vlib.write_json(os.path.join(vlib.ROOT, "evidence", pid + ".json"), merged)
+    return rc
